@@ -1599,3 +1599,317 @@ func (c *Ctx) producedBy(v ssa.Value, prod string, depth int) bool {
 	}
 	return false
 }
+
+// guardedSubRule (T21): a subtraction a - b of two non-constant integers in decoder code whose result is used as an
+// index, a slice bound, an allocation size, or (unsigned) at all, is made only where b ≤ a is known: a dominating
+// comparison of the same two values (modulo conversions and repeated loads / len of the same slice; transitively
+// through a third value; in the shifted form L ≥ b + k for a = L - k), or b is by construction no larger than a
+// (a % k, a / k, a & m, min(a, …), a φ of such values), or — in an unexported function all of whose callers are known
+// — every caller establishes it for the arguments it passes. Otherwise a crafted field makes the difference negative
+// (slice panic) or, unsigned, wraps to ~2^64 and slips past the range check it was meant to feed. `reasons` names the
+// differences whose safety is a value argument the rule cannot make, by package and operand shape, with the argument.
+// Returns the number of subtractions examined.
+func (c *Ctx) guardedSubRule(rule string, fns []*ssa.Function, reasons map[string]string, survey bool) int {
+	n := 0
+	same := func(a, b ssa.Value) bool {
+		a, b = stripConv(a), stripConv(b)
+		if a == b || sameLoad(a, b) {
+			return true
+		}
+		if xa, ok := lenArg(a); ok {
+			if xb, ok := lenArg(b); ok {
+				return sameColl(xa, xb)
+			}
+		}
+		// two readings of a buffer's length with nothing done to the buffer in between
+		if ca, ok := a.(*ssa.Call); ok {
+			if cb, ok := b.(*ssa.Call); ok && sameQuietLen(ca, cb) {
+				return true
+			}
+		}
+		ka, okA := constInt(a)
+		kb, okB := constInt(b)
+		return okA && okB && ka == kb
+	}
+	var leqX func(b *ssa.BasicBlock, small, big ssa.Value, depth int, extra []condFact) bool
+	leq := func(blk *ssa.BasicBlock, small, big ssa.Value, depth int) bool {
+		return leqX(blk, small, big, depth, nil)
+	}
+	leqX = func(blk *ssa.BasicBlock, small, big ssa.Value, depth int, extra []condFact) bool {
+		if depth > 3 {
+			return false
+		}
+		if same(small, big) {
+			return true
+		}
+		if k, ok := constInt(stripConv(small)); ok && k == 0 {
+			if bt, ok := big.Type().Underlying().(*types.Basic); ok && bt.Info()&types.IsUnsigned != 0 {
+				return true
+			}
+			if _, isLen := lenArg(stripConv(big)); isLen {
+				return true
+			}
+		}
+		conds := append(append([]condFact{}, dominatingConds(blk)...), extra...)
+		for _, cf := range conds {
+			if op, other, ok := relFact(cf, func(v ssa.Value) bool { return same(v, small) }); ok && (op == token.LEQ || op == token.LSS || op == token.EQL) {
+				if same(other, big) || leq(blk, other, big, depth+1) {
+					return true
+				}
+			}
+			if op, other, ok := relFact(cf, func(v ssa.Value) bool { return same(v, big) }); ok && (op == token.GEQ || op == token.GTR || op == token.EQL) {
+				if same(other, small) || leq(blk, small, other, depth+1) {
+					return true
+				}
+			}
+		}
+		// shifted form: big = L - k, and L ≥ small + k is known
+		if bb, ok := stripConv(big).(*ssa.BinOp); ok && bb.Op == token.SUB {
+			for _, cf := range conds {
+				op, other, ok := relFact(cf, func(v ssa.Value) bool { return same(v, bb.X) })
+				if !ok || !(op == token.GEQ || op == token.GTR || op == token.EQL) {
+					continue
+				}
+				if sum, ok := stripConv(other).(*ssa.BinOp); ok && sum.Op == token.ADD {
+					if (same(sum.X, small) && same(sum.Y, bb.Y)) || (same(sum.Y, small) && same(sum.X, bb.Y)) {
+						return true
+					}
+				}
+			}
+		}
+		s := stripConv(small)
+		switch x := s.(type) {
+		case *ssa.BinOp:
+			switch x.Op {
+			case token.REM, token.QUO, token.AND, token.SHR:
+				if same(x.X, big) {
+					return true // a % k, a / k, a & m, a >> k ≤ a for non-negative a
+				}
+			case token.SUB:
+				if same(x.X, big) || leq(blk, x.X, big, depth+1) {
+					return true // (a - c) ≤ a; the inner difference is an obligation of its own
+				}
+			}
+		case *ssa.Call:
+			if bi, ok := x.Call.Value.(*ssa.Builtin); ok && bi.Name() == "min" {
+				for _, a := range x.Call.Args {
+					if same(a, big) {
+						return true
+					}
+				}
+			}
+		case *ssa.Phi:
+			all, selfInc := len(x.Edges) > 0, false
+			for i, e := range x.Edges {
+				if inc, ok := e.(*ssa.BinOp); ok && inc.Op == token.ADD && (inc.X == ssa.Value(x) || inc.Y == ssa.Value(x)) {
+					selfInc = true
+					continue
+				}
+				// the edge's value is judged where it flows in from (`if big < x { x = big }` makes x ≤ big on both edges)
+				at := blk
+				var edge []condFact
+				if i < len(x.Block().Preds) {
+					at = x.Block().Preds[i]
+					if iff, ok := at.Instrs[len(at.Instrs)-1].(*ssa.If); ok && len(at.Succs) == 2 {
+						edge = condLeaves(iff.Cond, at.Succs[0] == x.Block())
+					}
+				}
+				if !leqX(at, e, big, depth+1, edge) && !leq(blk, e, big, depth+1) {
+					all = false
+				}
+			}
+			if all && !selfInc {
+				return true
+			}
+			if all {
+				// a counter: the loop test (a dominating condition on the φ) bounds it
+				for _, cf := range conds {
+					if op, other, ok := relFact(cf, func(v ssa.Value) bool { return v == ssa.Value(x) }); ok && (op == token.LEQ || op == token.LSS) {
+						if same(other, big) || leq(blk, other, big, depth+1) {
+							return true
+						}
+					}
+				}
+			}
+		}
+		// big = small + y
+		if bb, ok := stripConv(big).(*ssa.BinOp); ok && bb.Op == token.ADD && (same(bb.X, small) || same(bb.Y, small)) {
+			return true
+		}
+		return false
+	}
+	// every caller establishes it: both operands are parameters of an unexported function called only statically
+	lifted := func(f *ssa.Function, small, big ssa.Value) bool {
+		ps, ok1 := stripConv(small).(*ssa.Parameter)
+		pb, ok2 := stripConv(big).(*ssa.Parameter)
+		if !ok1 || !ok2 || ps.Parent() != f || pb.Parent() != f || f.Object() == nil || f.Object().Exported() {
+			return false
+		}
+		is, ib := -1, -1
+		for i, q := range f.Params {
+			if q == ps {
+				is = i
+			}
+			if q == pb {
+				ib = i
+			}
+		}
+		node := c.P.CallGraph().Nodes[f]
+		if node == nil || len(node.In) == 0 || is < 0 || ib < 0 {
+			return false
+		}
+		for _, e := range node.In {
+			if e.Site == nil || e.Site.Common().StaticCallee() != f || c.isTestFunc(e.Caller.Func) {
+				if e.Site != nil && c.isTestFunc(e.Caller.Func) {
+					continue
+				}
+				return false
+			}
+			args := e.Site.Common().Args
+			if !leq(e.Site.Block(), args[is], args[ib], 0) {
+				return false
+			}
+		}
+		return true
+	}
+	var shape func(v ssa.Value, d int) string
+	shape = func(v ssa.Value, d int) string {
+		v = stripConv(v)
+		if _, ok := lenArg(v); ok {
+			return "len"
+		}
+		switch x := v.(type) {
+		case *ssa.Call:
+			if g := x.Call.StaticCallee(); g != nil {
+				return g.Name() + "()"
+			}
+			if x.Call.IsInvoke() {
+				return x.Call.Method.Name() + "()"
+			}
+		case *ssa.Parameter:
+			return x.Name()
+		case *ssa.UnOp:
+			if fa, ok := x.X.(*ssa.FieldAddr); ok {
+				return "." + flow.FieldName(fa)
+			}
+		case *ssa.Field:
+			if st, ok := x.X.Type().Underlying().(*types.Struct); ok {
+				return "." + st.Field(x.Field).Name()
+			}
+		case *ssa.BinOp:
+			if d < 2 {
+				return "(" + shape(x.X, d+1) + x.Op.String() + shape(x.Y, d+1) + ")"
+			}
+		case *ssa.Const:
+			return "k"
+		case *ssa.Phi:
+			return "φ"
+		}
+		return "expr"
+	}
+	used := map[string]bool{}
+	for _, f := range fns {
+		if f.Blocks == nil {
+			continue
+		}
+		per := map[string]int{}
+		for _, b := range f.Blocks {
+			for _, in := range b.Instrs {
+				sub, ok := in.(*ssa.BinOp)
+				if !ok || sub.Op != token.SUB {
+					continue
+				}
+				bt, ok := sub.Type().Underlying().(*types.Basic)
+				if !ok || bt.Info()&types.IsInteger == 0 {
+					continue
+				}
+				if _, isK := constInt(stripConv(sub.Y)); isK {
+					continue // len(x) - k is T11's
+				}
+				if _, isK := constInt(stripConv(sub.X)); isK {
+					continue // k - x: a bound computed from a constant; T16 looks at decoded x
+				}
+				if !isUnsigned(sub.Type()) && len(indexUses(sub)) == 0 {
+					continue
+				}
+				n++
+				sh := shape(sub.X, 0) + " - " + shape(sub.Y, 0)
+				per[sh]++
+				construct := fmt.Sprintf("%s:%s", load.FuncName(f), sh)
+				if per[sh] > 1 {
+					construct = fmt.Sprintf("%s #%d", construct, per[sh])
+				}
+				okSub := leq(b, sub.Y, sub.X, 0) || lifted(f, sub.Y, sub.X)
+				key := load.RelPkg(f) + ": " + sh
+				if survey {
+					fmt.Printf("SURVEY T21 %v %s %s [%s]\n", okSub, c.pos(sub.Pos()), construct, key)
+					continue
+				}
+				if !okSub {
+					if why, ok := reasons[key]; ok {
+						used[key] = true
+						c.S.OK(rule, construct, c.pos(sub.Pos()), "value argument (named exception): "+why, false)
+						continue
+					}
+				}
+				c.S.Check(okSub, rule, construct, c.pos(sub.Pos()), "the subtrahend is known to be no larger than the minuend", "the difference "+sh+" is taken without the subtrahend being known ≤ the minuend: a crafted value makes it negative (out-of-range slice) or, unsigned, wraps around and passes the range check it feeds")
+			}
+		}
+	}
+	return n
+}
+
+
+// sameQuietLen: two static calls of the same standard-library Len method on the same receiver, in one function, with
+// no other call on (or passing) that receiver at any point that lies between them in dominance order.
+func sameQuietLen(a, b *ssa.Call) bool {
+	fa, fb := a.Call.StaticCallee(), b.Call.StaticCallee()
+	if fa == nil || fa != fb || fa.Name() != "Len" || len(a.Call.Args) != 1 || len(b.Call.Args) != 1 || a.Call.Args[0] != b.Call.Args[0] || a.Parent() != b.Parent() {
+		return false
+	}
+	if fa.Pkg == nil || (fa.Pkg.Pkg.Path() != "bytes" && fa.Pkg.Pkg.Path() != "strings") {
+		return false
+	}
+	first, second := a, b
+	if !first.Block().Dominates(second.Block()) {
+		first, second = b, a
+	}
+	if !first.Block().Dominates(second.Block()) {
+		return false
+	}
+	recv := a.Call.Args[0]
+	pos := func(in ssa.Instruction) int {
+		for i, x := range in.Block().Instrs {
+			if x == in {
+				return i
+			}
+		}
+		return -1
+	}
+	for _, blk := range a.Parent().Blocks {
+		if !first.Block().Dominates(blk) || !blk.Dominates(second.Block()) {
+			continue
+		}
+		for i, in := range blk.Instrs {
+			call, ok := in.(ssa.CallInstruction)
+			if !ok || in == ssa.Instruction(first) || in == ssa.Instruction(second) {
+				continue
+			}
+			if blk == first.Block() && i < pos(first) {
+				continue
+			}
+			if blk == second.Block() && i > pos(second) {
+				continue
+			}
+			for _, arg := range call.Common().Args {
+				if arg == recv {
+					return false
+				}
+			}
+			if call.Common().IsInvoke() && call.Common().Value == recv {
+				return false
+			}
+		}
+	}
+	return true
+}
